@@ -361,6 +361,25 @@ theorem status_stays_ok (cap data : Nat) (hd : 0 < data) (ops : List Op) (hwf : 
   rw [he] at h0
   exact h0
 
+/-- **reader identity for the translated code** — after any well-formed history the `i`-th handle handed out carries id `i + 1` and
+the channel counts exactly the handles handed out (`holds_n`): every handle names its own bookmark slot, no two share one. -/
+theorem handle_ids (cap data : Nat) (hd : 0 < data) (ops : List Op) (hwf : wfRun (Sys.init cap) ops = true) :
+    (crun (CSys.init cap data) ops).rds.length = (crun (CSys.init cap data) ops).ch.holds_n ∧
+    ∀ (i : Nat) (hi : i < (crun (CSys.init cap data) ops).rds.length), ((crun (CSys.init cap data) ops).rds[i]).id = i + 1 := by
+  have hs := refine_history cap data hd ops hwf
+  have hreach : Reachable cap (run (Sys.init cap) ops) (grun (Sys.init cap) {} ops) := ⟨⟨ops, hwf, rfl, rfl⟩⟩
+  have hl : (run (Sys.init cap) ops).rds.length = (crun (CSys.init cap data) ops).rds.length := by
+    rw [← hs.rds, List.length_map]
+  refine ⟨by rw [hs.n_le hreach.inv, hl], ?_⟩
+  intro i hi
+  have h0 := (hreach.inv.rd i (by rw [← hreach.inv.l_rds]; omega)).1.id
+  have he : nth (run (Sys.init cap) ops).rds i = absRd ((crun (CSys.init cap data) ops).rds[i]) := by
+    unfold nth
+    rw [← hs.rds, List.getD_eq_getElem?_getD, List.getElem?_map, List.getElem?_eq_getElem hi]
+    rfl
+  rw [he] at h0
+  exact h0
+
 /-! ## non-vacuity: a concrete history with a wrap, a lap change and partial consumption, run through the translated functions -/
 def demoOps : List Op :=
   [.join, .wmap 10, .wcommit, .rmap 0, .runmap 0 10, .join, .runmap 1 10, .wmap 10, .wcommit, .rmap 0, .runmap 0 3,
